@@ -226,6 +226,26 @@ def copies(ctx, rep, clause):
        not alias, 'copies', f'captures {alias}', program.func(f'{PP}:create_annotation').loc(), clause)
 
 
+def _normalised_to_none(fnode, name: str) -> bool:
+    """the container `name` is turned back into None when it ends up empty: `if <test on name>: name = None`, or it is
+    only handed on as `name or None` / `name if name else None` / `None if not name else name` / `None if
+    len(name) == 0 else name`"""
+    for x in walk_own(fnode):
+        if isinstance(x, ast.If) and name in {y.id for y in ast.walk(x.test) if isinstance(y, ast.Name)} and \
+                any(isinstance(z, ast.Assign) and norm_stmt(z.targets[0]) == name and
+                    isinstance(z.value, ast.Constant) and z.value.value is None for z in x.body):
+            return True
+        if isinstance(x, ast.BoolOp) and isinstance(x.op, ast.Or) and len(x.values) == 2 and \
+                norm_stmt(x.values[0]) == name and isinstance(x.values[1], ast.Constant) and x.values[1].value is None:
+            return True
+        if isinstance(x, ast.IfExp) and name in {y.id for y in ast.walk(x.test) if isinstance(y, ast.Name)}:
+            arms = [x.body, x.orelse]
+            if any(isinstance(a, ast.Constant) and a.value is None for a in arms) and \
+                    any(norm_stmt(a) == name for a in arms):
+                return True
+    return False
+
+
 def empty_vs_absent(ctx, rep, clause):
     """writer/reader agreement on "no residue modifications": a method that filters the position map into a fresh
     dict without turning an empty result back into None (slice does) makes `{}` a legal value of the field; equality
@@ -244,12 +264,7 @@ def empty_vs_absent(ctx, rep, clause):
             if not stores or not filtered:
                 continue
             d = stores[0].targets[0].value.id
-            normalised = False
-            for x in walk_own(m.node):
-                if isinstance(x, ast.If) and d in {y.id for y in ast.walk(x.test) if isinstance(y, ast.Name)} and \
-                        any(isinstance(z, ast.Assign) and norm_stmt(z.targets[0]) == d and
-                            isinstance(z.value, ast.Constant) and z.value.value is None for z in x.body):
-                    normalised = True
+            normalised = _normalised_to_none(m.node, d)
             if not normalised:
                 producers.append(name)
     eq = cls.methods['__eq__']
@@ -287,12 +302,7 @@ def empty_vs_absent(ctx, rep, clause):
             if not appends or not filtered:
                 continue
             lst = appends[0].func.value.id
-            normalised = False
-            for x in walk_own(m.node):
-                if isinstance(x, ast.If) and lst in {y.id for y in ast.walk(x.test) if isinstance(y, ast.Name)} and \
-                        any(isinstance(z, ast.Assign) and norm_stmt(z.targets[0]) == lst and
-                            isinstance(z.value, ast.Constant) and z.value.value is None for z in x.body):
-                    normalised = True
+            normalised = _normalised_to_none(m.node, lst)
             ob(rep, 'SIB-empty', m.fq, f'{name}: a filtered interval list that ends up empty is turned back into None',
                normalised or not tells_apart, 'normalised to None' if normalised else 'equality treats [] as None',
                f'{name} filters the intervals into a fresh list and can leave it empty, while are_intervals_equal tells '
